@@ -190,6 +190,60 @@ theorem C14_sessions_bounded (evs : List Ev) : evs.foldl sessStep 0 ≤ Generate
     | connectAttempt => simp only [sessStep]; split <;> omega
     | remove => simp only [sessStep]; omega
 
+/-- **a session's pending reply stays with that session when another session goes away**: after
+`remove_client i` the remaining sessions are exactly the others, each with its own descriptor and its
+own pending reply (no reply is handed to a session that did not ask for it) -/
+theorem C14_remove_keeps_sessions_apart (cs : List Client) (i : Nat) (hi : i < cs.length) (c : Client) :
+    c ∈ removeClient cs i ↔ ∃ j : Nat, j ≠ i ∧ cs[j]? = some c := by
+  unfold removeClient
+  by_cases hl : i + 1 = cs.length
+  · simp only [hl, if_true]
+    rw [List.dropLast_eq_take]
+    constructor
+    · intro hm
+      obtain ⟨j, hj⟩ := List.getElem?_of_mem hm
+      rw [List.getElem?_take] at hj
+      split at hj
+      · rename_i hlt; exact ⟨j, by omega, hj⟩
+      · cases hj
+    · rintro ⟨j, hne, hj⟩
+      have hjl : j < cs.length := (List.getElem?_eq_some_iff.mp hj).1
+      exact List.mem_of_getElem? (i := j) (by rw [List.getElem?_take]; simp [show j < cs.length - 1 by omega, hj])
+  · simp only [hl, if_false]
+    have hne : cs ≠ [] := by intro h; simp [h] at hi
+    have hlast : cs.getLast? = some (cs.getLast hne) := List.getLast?_eq_getLast hne
+    rw [hlast]
+    simp only []
+    have hlastidx : cs[cs.length - 1]? = some (cs.getLast hne) := by
+      rw [List.getLast_eq_getElem]; exact List.getElem?_eq_getElem (by omega)
+    rw [List.dropLast_eq_take, List.length_set]
+    constructor
+    · intro hm
+      obtain ⟨j, hj⟩ := List.getElem?_of_mem hm
+      rw [List.getElem?_take] at hj
+      split at hj
+      · rename_i hlt
+        rw [List.getElem?_set] at hj
+        by_cases hij : i = j
+        · subst hij; simp [hi] at hj; exact ⟨cs.length - 1, by omega, by rw [← hj]; exact hlastidx⟩
+        · simp [hij] at hj; exact ⟨j, fun h => hij h.symm, hj⟩
+      · cases hj
+    · rintro ⟨j, hne2, hj⟩
+      have hjl : j < cs.length := (List.getElem?_eq_some_iff.mp hj).1
+      by_cases hjlast : j = cs.length - 1
+      · -- the last client now sits in slot i
+        apply List.mem_of_getElem? (i := i)
+        rw [List.getElem?_take]
+        have : i < cs.length - 1 := by omega
+        simp only [this, if_true, List.getElem?_set, hi, and_self]
+        subst hjlast; rw [hlastidx] at hj; simp [hj]
+      · apply List.mem_of_getElem? (i := j)
+        rw [List.getElem?_take]
+        have : j < cs.length - 1 := by omega
+        simp only [this, if_true, List.getElem?_set]
+        have : ¬ i = j := fun h => hne2 h.symm
+        simp [this, hj]
+
 /-- non-vacuity: tls.key and ordinary attributes: exactly the ordinary ones are reported -/
 example :
     (processGetAll 0 [{ name := [97], type := 3, value := [1] }, { name := tlsKey, type := 4, value := [9] },
